@@ -606,6 +606,459 @@ prog_url(void *arg)
 	lib_fini();
 }
 
+
+// ---- program: nng_msg operations ----------------------------------------------------------------
+// every growing operation of the message API with the allocation inside it failing: NNG_ENOMEM, the
+// message unchanged (it is still the caller's and later calls use it), the retry succeeds and the
+// final content is what the sequence of successful operations says
+static unsigned char MB[200000], MH[80];
+static size_t        MBL, MHL;
+
+static void
+msg_same(nng_msg *m, const char *when)
+{
+	if (nng_msg_len(m) != MBL || (MBL && memcmp(nng_msg_body(m), MB, MBL) != 0))
+		vs_fail("C20:msg-changed-by-failed-call",
+		    "%s: body is %zu bytes, model %zu (or content differs), site %s", when,
+		    nng_msg_len(m), MBL, va_failed_site);
+	if (nng_msg_header_len(m) != MHL || (MHL && memcmp(nng_msg_header(m), MH, MHL) != 0))
+		vs_fail("C20:msg-changed-by-failed-call",
+		    "%s: header is %zu bytes, model %zu (or content differs), site %s", when,
+		    nng_msg_header_len(m), MHL, va_failed_site);
+	if (nng_msg_capacity(m) < nng_msg_len(m))
+		vs_fail("C20:msg-changed-by-failed-call", "%s: capacity %zu < length %zu", when,
+		    nng_msg_capacity(m), nng_msg_len(m));
+}
+
+#define MSGOP(m, call, model)                                                        \
+	do {                                                                         \
+		long f0_ = va_failed;                                                \
+		int  rv_ = (call);                                                   \
+		if (rv_ == NNG_ENOMEM && va_failed > f0_) {                          \
+			msg_same(m, "after NNG_ENOMEM from " #call);                 \
+			rv_ = (call);                                                \
+		}                                                                    \
+		if (rv_ != 0)                                                        \
+			vs_fail("C20:bad-error:nng_msg", "%s -> %d (%s), injected=%ld site %s", \
+			    #call, rv_, nng_strerror(rv_), va_failed, va_failed_site); \
+		model;                                                               \
+		msg_same(m, "after " #call);                                         \
+	} while (0)
+
+static void
+mb_append(const void *d, size_t n)
+{
+	memcpy(MB + MBL, d, n);
+	MBL += n;
+}
+static void
+mb_insert(const void *d, size_t n)
+{
+	memmove(MB + n, MB, MBL);
+	memcpy(MB, d, n);
+	MBL += n;
+}
+
+static void
+prog_msg(void *arg)
+{
+	(void) arg;
+	lib_init();
+	static unsigned char pat[70000];
+	for (size_t i = 0; i < sizeof(pat); i++)
+		pat[i] = (unsigned char) (i * 7 + (i >> 8) + 1);
+	nng_msg *m = NULL, *d = NULL, *d2 = NULL;
+	MBL = MHL = 0;
+	LOCAL(nng_msg_alloc(&m, 10));
+	memset(MB, 0, 10);
+	MBL = 10;
+	memcpy(nng_msg_body(m), pat, 10);
+	memcpy(MB, pat, 10);
+	msg_same(m, "after alloc");
+	MSGOP(m, nng_msg_append(m, pat + 10, 40), mb_append(pat + 10, 40));
+	MSGOP(m, nng_msg_insert(m, pat + 100, 40), mb_insert(pat + 100, 40)); // beyond the head room
+	MSGOP(m, nng_msg_header_append_u32(m, 0x80000001u), (memcpy(MH + MHL, "\x80\0\0\1", 4), MHL += 4));
+	MSGOP(m, nng_msg_insert_u64(m, 0x0102030405060708ull),
+	    mb_insert("\1\2\3\4\5\6\7\10", 8));
+	LOCAL(nng_msg_dup(&d, m));
+	if (nng_msg_len(d) != MBL || memcmp(nng_msg_body(d), MB, MBL) != 0 ||
+	    nng_msg_header_len(d) != MHL || memcmp(nng_msg_header(d), MH, MHL) != 0)
+		vs_fail("C20:corrupt-after-failure", "nng_msg_dup: copy differs from its original");
+	msg_same(m, "after nng_msg_dup");
+	MSGOP(m, nng_msg_realloc(m, 5000), (memset(MB + MBL, 0, 5000 - MBL), MBL = 5000));
+	MSGOP(m, nng_msg_reserve(m, 20000), (void) 0);
+	MSGOP(m, nng_msg_append(m, pat, 70000), mb_append(pat, 70000));
+	MSGOP(m, nng_msg_trim(m, 4990), (memmove(MB, MB + 4990, MBL - 4990), MBL -= 4990));
+	MSGOP(m, nng_msg_insert(m, pat + 7, 33), mb_insert(pat + 7, 33));
+	MSGOP(m, nng_msg_insert(m, pat + 9, 5000), mb_insert(pat + 9, 5000));
+	MSGOP(m, nng_msg_chop(m, 60000), MBL -= 60000);
+	MSGOP(m, nng_msg_realloc(m, 3), MBL = 3);
+	MSGOP(m, nng_msg_append_u16(m, 0xbeef), mb_append("\xbe\xef", 2));
+	LOCAL(nng_msg_dup(&d2, m));
+	nng_msg_clear(d2);
+	msg_same(m, "after clearing a duplicate");
+	// the first duplicate is independent of everything done to the original since
+	if (nng_msg_len(d) != 98 || memcmp((char *) nng_msg_body(d) + 8, pat + 100, 40) != 0)
+		vs_fail("C20:corrupt-after-failure", "first duplicate changed: %zu bytes", nng_msg_len(d));
+	nng_msg_free(d);
+	nng_msg_free(d2);
+	nng_msg_free(m);
+	lib_fini();
+}
+
+// ---- program: byte-stream API (tcp, ipc) -------------------------------------------------------
+static int
+aio_done_ok(nng_aio *a)
+{
+	nng_aio_wait(a);
+	return nng_aio_result(a);
+}
+
+// one connection through dialer sd / listener sl; returns 0 and both streams, or the error
+static int
+stream_connect(nng_stream_dialer *sd, nng_stream_listener *sl, nng_aio *da, nng_aio *aa,
+    nng_stream **c1, nng_stream **c2)
+{
+	*c1 = *c2 = NULL;
+	nng_aio_set_timeout(da, 1000);
+	nng_aio_set_timeout(aa, 1000);
+	nng_stream_listener_accept(sl, aa);
+	nng_stream_dialer_dial(sd, da);
+	int r1 = aio_done_ok(da), r2 = aio_done_ok(aa);
+	if (r1 == 0)
+		*c1 = nng_aio_get_output(da, 0);
+	if (r2 == 0)
+		*c2 = nng_aio_get_output(aa, 0);
+	if (r1 == 0 && r2 == 0)
+		return 0;
+	if (*c1) {
+		nng_stream_close(*c1);
+		nng_stream_free(*c1);
+	}
+	if (*c2) {
+		nng_stream_close(*c2);
+		nng_stream_free(*c2);
+	}
+	*c1 = *c2 = NULL;
+	return r1 ? r1 : r2;
+}
+
+static int
+stream_xfer(nng_stream *from, nng_stream *to, nng_aio *sa, nng_aio *ra, const char *txt)
+{
+	char    buf[32];
+	size_t  n = strlen(txt), got = 0;
+	nng_iov iov;
+	iov.iov_buf = (void *) txt;
+	iov.iov_len = n;
+	nng_aio_set_timeout(sa, 1000);
+	nng_aio_set_timeout(ra, 1000);
+	if (nng_aio_set_iov(sa, 1, &iov) != 0)
+		vs_fail("harness:stream", "set_iov");
+	nng_stream_send(from, sa);
+	int rv = aio_done_ok(sa);
+	if (rv != 0)
+		return rv;
+	if (nng_aio_count(sa) != n)
+		return -1; // short write of a few bytes on a fresh connection: not expected
+	while (got < n) {
+		iov.iov_buf = buf + got;
+		iov.iov_len = n - got;
+		nng_aio_set_iov(ra, 1, &iov);
+		nng_stream_recv(to, ra);
+		rv = aio_done_ok(ra);
+		if (rv != 0)
+			return rv;
+		got += nng_aio_count(ra);
+	}
+	if (memcmp(buf, txt, n) != 0)
+		vs_fail("C20:corrupt-after-failure", "byte stream delivered other bytes than were sent");
+	return 0;
+}
+
+static void
+prog_stream(void *arg)
+{
+	int  tran = (int) (intptr_t) arg; // T_TCP or T_IPC
+	char url[256];
+	if (tran == T_TCP)
+		vs_tcp_grace_us = 1500;
+	lib_init();
+	nng_stream_listener *sl = NULL;
+	nng_stream_dialer   *sd = NULL;
+	nng_aio             *da = NULL, *aa = NULL, *sa = NULL, *ra = NULL;
+	nng_stream          *c1, *c2;
+	if (tran == T_TCP)
+		snprintf(url, sizeof(url), "tcp://127.0.0.1:0");
+	else
+		snprintf(url, sizeof(url), "ipc://%s/c20s-%d.sock", vx_rundir(), (int) getpid());
+	LOCAL(nng_stream_listener_alloc(&sl, url));
+	LOCAL(nng_stream_listener_listen(sl));
+	if (tran == T_TCP) {
+		int port = 0;
+		LOCAL(nng_stream_listener_get_int(sl, NNG_OPT_BOUND_PORT, &port));
+		snprintf(url, sizeof(url), "tcp://127.0.0.1:%d", port);
+	}
+	LOCAL(nng_stream_dialer_alloc(&sd, url));
+	LOCAL(nng_aio_alloc(&da, NULL, NULL));
+	LOCAL(nng_aio_alloc(&aa, NULL, NULL));
+	LOCAL(nng_aio_alloc(&sa, NULL, NULL));
+	LOCAL(nng_aio_alloc(&ra, NULL, NULL));
+	int rv = stream_connect(sd, sl, da, aa, &c1, &c2);
+	if (rv != 0 && !va_failed)
+		vs_fail("harness:fault-free", "stream connect -> %d (%s)", rv, nng_strerror(rv));
+	if (rv == 0) {
+		rv = stream_xfer(c1, c2, sa, ra, "hello");
+		if (rv == 0)
+			rv = stream_xfer(c2, c1, sa, ra, "world!");
+		if (rv != 0 && !va_failed)
+			vs_fail("harness:fault-free", "stream transfer -> %d", rv);
+		nng_stream_close(c1);
+		nng_stream_close(c2);
+		nng_stream_free(c1);
+		nng_stream_free(c2);
+	}
+	// later calls behave: with the allocator healthy the same dialer and listener connect again
+	// (a connection left over from a failed accept may be consumed first) and carry data
+	{
+		int save = va_choice;
+		va_choice = 0;
+		rv        = -1;
+		for (int t = 0; t < 5 && rv != 0; t++) {
+			rv = stream_connect(sd, sl, da, aa, &c1, &c2);
+			if (rv == 0) {
+				rv = stream_xfer(c1, c2, sa, ra, "again");
+				nng_stream_close(c1);
+				nng_stream_close(c2);
+				nng_stream_free(c1);
+				nng_stream_free(c2);
+			}
+		}
+		if (rv != 0)
+			vs_fail("C20:wedged-after-failure",
+			    "stream dialer/listener: five connect+transfer attempts with a healthy "
+			    "allocator all failed (last %d %s), injected=%ld site %s",
+			    rv, rv > 0 ? nng_strerror(rv) : "short", va_failed, va_failed_site);
+		va_choice = save;
+	}
+	nng_aio_free(da);
+	nng_aio_free(aa);
+	nng_aio_free(sa);
+	nng_aio_free(ra);
+	nng_stream_dialer_close(sd);
+	nng_stream_listener_close(sl);
+	nng_stream_dialer_free(sd);
+	nng_stream_listener_free(sl);
+	lib_fini();
+}
+
+// ---- program: HTTP server and client objects ---------------------------------------------------
+static void
+c20_h_cb(nng_http *conn, void *arg, nng_aio *aio)
+{
+	(void) arg;
+	nng_http_set_status(conn, NNG_HTTP_STATUS_OK, NULL);
+	int rv = nng_http_copy_body(conn, "dynamic", 7);
+	if (rv == 0)
+		rv = nng_http_set_header(conn, "X-C20", "yes");
+	nng_aio_finish(aio, rv);
+}
+
+// GET path over a fresh connection: 0 = transaction completed (status and body in *st, body),
+// otherwise the error
+static int
+http_get(nng_http_client *cli, nng_aio *aio, const char *path, int *st, char *body, size_t bsz)
+{
+	nng_http *conn;
+	int       rv;
+	nng_aio_set_timeout(aio, 1000);
+	nng_http_client_connect(cli, aio);
+	if ((rv = aio_done_ok(aio)) != 0)
+		return rv;
+	conn = nng_aio_get_output(aio, 0);
+	if ((rv = nng_http_set_uri(conn, path, NULL)) != 0) {
+		nng_http_close(conn);
+		return rv;
+	}
+	nng_aio_set_timeout(aio, 1000);
+	nng_http_transact(conn, aio);
+	if ((rv = aio_done_ok(aio)) == 0) {
+		void  *b;
+		size_t n;
+		*st = (int) nng_http_get_status(conn);
+		nng_http_get_body(conn, &b, &n);
+		if (n >= bsz)
+			n = bsz - 1;
+		memcpy(body, b, n);
+		body[n] = 0;
+	}
+	nng_http_close(conn);
+	return rv;
+}
+
+static void
+prog_http(void *arg)
+{
+	(void) arg;
+	vs_tcp_grace_us = 1500;
+	lib_init();
+	nng_url          *u = NULL, *cu = NULL;
+	nng_http_server  *srv = NULL;
+	nng_http_handler *h = NULL, *hs = NULL, *hr = NULL;
+	nng_http_client  *cli = NULL;
+	nng_aio          *aio = NULL;
+	int               port = 0, st = 0, rv;
+	char              body[64], curl[64];
+	LOCAL(nng_url_parse(&u, "http://127.0.0.1:0"));
+	LOCAL(nng_http_server_hold(&srv, u));
+	LOCAL(nng_http_handler_alloc(&h, "/dyn", c20_h_cb));
+	LOCAL(nng_http_server_add_handler(srv, h));
+	LOCAL(nng_http_handler_alloc_static(&hs, "/static", "static-body", 11, "text/plain"));
+	LOCAL(nng_http_server_add_handler(srv, hs));
+	LOCAL(nng_http_handler_alloc_redirect(&hr, "/old", 301, "/static"));
+	LOCAL(nng_http_server_add_handler(srv, hr));
+	LOCAL(nng_http_server_set_error_page(srv, NNG_HTTP_STATUS_NOT_FOUND, "<b>nope</b>"));
+	LOCAL(nng_http_server_start(srv));
+	LOCAL(nng_http_server_get_port(srv, &port));
+	snprintf(curl, sizeof(curl), "http://127.0.0.1:%d", port);
+	LOCAL(nng_url_parse(&cu, curl));
+	LOCAL(nng_http_client_alloc(&cli, cu));
+	LOCAL(nng_aio_alloc(&aio, NULL, NULL));
+	static const struct {
+		const char *path;
+		int         st;
+		const char *body;
+	} G[] = { { "/dyn", 200, "dynamic" }, { "/static", 200, "static-body" },
+		{ "/old", 301, NULL }, { "/missing", 404, "<b>nope</b>" } };
+	for (int pass = 0; pass < 2; pass++) {
+		// pass 0 with the failing allocation somewhere, pass 1 with a healthy allocator: every
+		// handler answers as configured ("does not leave the object in a state where later calls
+		// misbehave")
+		int save = va_choice;
+		if (pass == 1)
+			va_choice = 0;
+		for (int i = 0; i < 4; i++) {
+			long f0 = va_failed;
+			rv      = http_get(cli, aio, G[i].path, &st, body, sizeof(body));
+			if (rv != 0) {
+				if (pass == 0 && va_failed)
+					continue; // best-effort loss of one connection
+				// one connection attempt of the healthy pass may still meet what the failure
+				// left in the accept queue
+				if (pass == 1 && va_failed)
+					rv = http_get(cli, aio, G[i].path, &st, body, sizeof(body));
+				if (rv != 0)
+					vs_fail(pass ? "C20:wedged-after-failure" : "harness:fault-free",
+					    "GET %s -> %d (%s), injected=%ld site %s", G[i].path, rv,
+					    nng_strerror(rv), va_failed, va_failed_site);
+			}
+			if (pass == 0 && va_failed > f0)
+				continue; // the request that met the failure: an error status or a bare answer
+				          // is the best-effort loss; what counts is the next pass
+			if (st != G[i].st || (G[i].body && strcmp(body, G[i].body) != 0))
+				vs_fail("C20:misbehaves-after-failure",
+				    "GET %s answered %d \"%s\", configured %d \"%s\" (pass %d), injected=%ld "
+				    "site %s",
+				    G[i].path, st, body, G[i].st, G[i].body ? G[i].body : "", pass,
+				    va_failed, va_failed_site);
+		}
+		va_choice = save;
+	}
+	nng_aio_free(aio);
+	nng_http_client_free(cli);
+	nng_http_server_stop(srv);
+	nng_http_server_release(srv);
+	nng_url_free(u);
+	nng_url_free(cu);
+	lib_fini();
+}
+
+// ---- program: string options and statistics of a connected pair -------------------------------------
+static void
+prog_wsopts(void *arg)
+{
+	(void) arg;
+	vs_tcp_grace_us = 1500;
+	lib_init();
+	nng_socket   a = NNG_SOCKET_INITIALIZER, b = NNG_SOCKET_INITIALIZER;
+	nng_listener l = NNG_LISTENER_INITIALIZER;
+	nng_dialer   d = NNG_DIALER_INITIALIZER;
+	char         url[80];
+	int          port = 0, ok;
+	LOCAL(nng_pair0_open(&a));
+	LOCAL(nng_pair0_open(&b));
+	LOCAL(nng_socket_set_ms(a, NNG_OPT_RECVTIMEO, 300));
+	LOCAL(nng_socket_set_ms(b, NNG_OPT_RECVTIMEO, 300));
+	LOCAL(nng_socket_set_ms(a, NNG_OPT_SENDTIMEO, 300));
+	LOCAL(nng_socket_set_ms(b, NNG_OPT_SENDTIMEO, 300));
+	LOCAL(nng_listener_create(&l, a, "ws://127.0.0.1:0/c20o"));
+	LOCAL(nng_listener_set_string(l, NNG_OPT_WS_HEADER "X-Server", "srv-value"));
+	LOCAL(nng_listener_set_string(l, NNG_OPT_WS_HEADER "X-Server2", "srv-two"));
+	LOCAL(nng_listener_set_string(l, NNG_OPT_WS_HEADER "X-Server", "srv-again")); // replace
+	LOCAL(nng_listener_start(l, 0));
+	LOCAL(nng_listener_get_int(l, NNG_OPT_BOUND_PORT, &port));
+	snprintf(url, sizeof(url), "ws://127.0.0.1:%d/c20o", port);
+	LOCAL(nng_dialer_create(&d, b, url));
+	LOCAL(nng_dialer_set_string(d, NNG_OPT_WS_HEADER "X-Client", "cli-value"));
+	LOCAL(nng_dialer_set_string(d, NNG_OPT_WS_HEADER "X-Client", "cli-again"));
+	NET(nng_dialer_start(d, 0), ok);
+	vs_settle();
+	if (!ok) {
+		int save = va_choice, rv = -1;
+		va_choice = 0;
+		for (int t = 0; t < 50 && rv != 0; t++) {
+			rv = nng_dialer_start(d, 0);
+			if (rv == NNG_ESTATE) // the failed start left it started: it redials by itself
+				rv = 0;
+			if (rv != 0)
+				vs_sleep(100);
+		}
+		if (rv != 0)
+			vs_fail("C20:wedged-after-failure", "dialer never starts again: %s, site %s",
+			    nng_strerror(rv), va_failed_site);
+		vs_sleep(300);
+		va_choice = save;
+	}
+	int s1 = 0, r1 = 0;
+	send1(b, "ping", &s1);
+	if (s1)
+		recv1(a, "ping", &r1);
+	if (r1) {
+		// the headers configured above are what the peer saw
+		nng_msg *m = NULL;
+		send1(a, "pong", &s1);
+		if (s1 && nng_recvmsg(b, &m, 0) == 0) {
+			nng_pipe    p = nng_msg_get_pipe(m);
+			const char *v = NULL;
+			int         rv = nng_pipe_get_string(p, NNG_OPT_WS_HEADER "X-Server", &v);
+			if (rv == 0 && strcmp(v, "srv-again") != 0)
+				vs_fail("C20:misbehaves-after-failure",
+				    "X-Server seen by the dialer is \"%s\", configured \"srv-again\"; site %s",
+				    v, va_failed_site);
+			if (rv != 0 && !va_failed)
+				vs_fail("harness:fault-free", "pipe header X-Server -> %d", rv);
+			rv = nng_pipe_get_string(p, NNG_OPT_WS_HEADER "X-Server2", &v);
+			if (rv == 0 && strcmp(v, "srv-two") != 0)
+				vs_fail("C20:misbehaves-after-failure",
+				    "X-Server2 seen by the dialer is \"%s\", configured \"srv-two\"; site %s",
+				    v, va_failed_site);
+			if (rv != 0 && !va_failed)
+				vs_fail("harness:fault-free", "pipe header X-Server2 -> %d", rv);
+			nng_msg_free(m);
+		}
+	}
+	// statistics of connected sockets (dialer, listener and pipe children)
+	nng_stat *st = NULL;
+	LOCAL(nng_stats_get(&st));
+	if (nng_stat_find_socket(st, a) == NULL || nng_stat_find_listener(st, l) == NULL ||
+	    nng_stat_find_dialer(st, d) == NULL)
+		vs_fail("C20:misbehaves-after-failure", "statistics snapshot lacks a live socket / endpoint");
+	nng_stats_free(st);
+	LOCAL(nng_socket_close(a));
+	LOCAL(nng_socket_close(b));
+	lib_fini();
+}
+
 // ---- program: device ---------------------------------------------------------------------
 static void
 prog_device(void *arg)
@@ -696,6 +1149,11 @@ main(int argc, char **argv)
 	explore("contexts", prog_ctx, NULL);
 	explore("url-stats", prog_url, NULL);
 	explore("device", prog_device, NULL);
+	explore("msg-ops", prog_msg, NULL);
+	explore("stream-ipc", prog_stream, (void *) (intptr_t) T_IPC);
+	explore("stream-tcp", prog_stream, (void *) (intptr_t) T_TCP);
+	explore("http-server-client", prog_http, NULL);
+	explore("ws-options-stats", prog_wsopts, NULL);
 	explore("sockfd-raw", prog_sockfd, NULL);
 	static xarg X[X_N * T_N];
 	int         nx = 0;
